@@ -773,6 +773,22 @@ def _c15_generated_bytes():
     _raw(span).tail = " gamma a"
     body.append(p)
     body.append(List(["item a", "item b"]))
+    # a numbered list in the ODF way: a list style with a level-1 number format, referenced by the paragraph style of
+    # the items (exports number such items; reading them as text must not depend on an earlier export)
+    from odfdo import Element, ListItem, Style
+    doc.insert_style(Element.from_tag(
+        '<text:list-style style:name="VerifL1"><text:list-level-style-number text:level="1" style:num-format="1" '
+        'style:num-suffix="."/></text:list-style>'), automatic=True)
+    pst = Style("paragraph", name="VerifP1")
+    pst.set_attribute("style:list-style-name", "VerifL1")
+    doc.insert_style(pst, automatic=True)
+    numbered = List()
+    numbered.set_attribute("text:style-name", "VerifL1")
+    for txt in ("numbered a", "numbered b", "numbered c"):
+        item = ListItem()
+        item.append(Paragraph(txt, style="VerifP1"))
+        numbered.append(item)
+    body.append(numbered)
     fp = Paragraph("holder")
     fp.append(Frame.text_frame("frame text a", size=("3cm", "1cm"), name="f1"))
     body.append(fp)
